@@ -20,6 +20,8 @@ type ctB int32
 type ctC string
 type ctD int64
 
+func init() { scenarios["registry"] = registry }
+
 func regT[P, T any](m func(T) (P, error), u func(P) (T, error)) {
 	restlicodec.RegisterCustomTyperef[P, T](m, u, func(t T) fnv1a.Hash { return fnv1a.ZeroHash() }, func(a, b T) bool { return true })
 }
